@@ -186,12 +186,16 @@ func (fc *FnCtx) havocAll() {
 	st.heap["alloc"] = na
 	fc.vc.assume(st.reach, "(>= "+na+" "+a+")")
 	ks := sortedKeys(st.sorts)
+	// after havoc-all only the contract's ensures speak about the new state: typing closures are not re-emitted
+	// (sound: fewer assumptions), which keeps the queries small
+	fc.noClosure = true
 	for _, k := range ks {
 		if k == "alloc" {
 			continue
 		}
 		fc.havocComp(k, st.sorts[k], na)
 	}
+	fc.noClosure = false
 	st.epoch = fc.vc.nfresh
 }
 
@@ -199,7 +203,7 @@ func (fc *FnCtx) inlinable(f *ssa.Function) bool {
 	if len(f.Blocks) == 0 || fc.depth >= maxInlineDepth {
 		return false
 	}
-	if f.Recover != nil {
+	if usesRecover(f) {
 		return false
 	}
 	pkgPath := ""
@@ -540,6 +544,14 @@ func (fc *FnCtx) modTargets(items []ast.Expr, se *SpecEnv) ([]modTarget, error) 
 					return nil, err
 				}
 				add(elemComp(t), arraySort(arraySort(fc.sortStr(t))), "")
+			case "allchans":
+				pkg := fc.prog.pkgByPath(se.pkgPath)
+				t, err := resolveType(pkg, x.Args[0])
+				if err != nil {
+					return nil, err
+				}
+				add("CN.sent", arraySort("Int"), "")
+				add("CL."+typeKey(t), arraySort(arraySort(fc.sortStr(t))), "")
 			case "allmaps":
 				pkg := fc.prog.pkgByPath(se.pkgPath)
 				t, err := resolveType(pkg, x.Args[0])
@@ -700,12 +712,18 @@ func allocRoot(addr ssa.Value) *ssa.Alloc {
 func (fc *FnCtx) instrMods(ins ssa.Instruction, li *loopInfo, depth int) {
 	switch x := ins.(type) {
 	case *ssa.Store:
+		if a, ok := x.Addr.(*ssa.Alloc); ok && immutableLocalStruct(a) {
+			break
+		}
 		fc.addrMods(li, x.Addr)
 		if a := allocRoot(x.Addr); a != nil && depth == 0 && !li.blocks[a.Block()] {
 			li.localAllocs = append(li.localAllocs, a)
 		}
 	case *ssa.Alloc:
 		t := x.Type().(*types.Pointer).Elem()
+		if immutableLocalStruct(x) {
+			break
+		}
 		switch u := t.Underlying().(type) {
 		case *types.Struct:
 			fc.addStructMods(li, t)
@@ -1207,6 +1225,7 @@ func (fc *FnCtx) uniq(name string) string {
 
 func (fc *FnCtx) runDefers(x *ssa.RunDefers) error {
 	blk := x.Block()
+	fc.preDeferSite = fc.siteDesc()
 	for i := len(fc.defers) - 1; i >= 0; i-- {
 		d := fc.defers[i]
 		if d.block == blk || d.block.Dominates(blk) {
